@@ -15,6 +15,7 @@ mod engine;
 mod mask;
 mod model;
 mod props;
+mod shadow;
 mod sig;
 mod sip;
 mod wire;
@@ -65,11 +66,13 @@ pub fn load_known_findings() -> Vec<KnownFinding> {
                     text.push(tok);
                 }
                 if !prop.is_empty() && !key.is_empty() {
-                    v.push(KnownFinding {
-                        prop,
-                        key,
-                        text: text.join(" "),
-                    });
+                    for p in prop.split(',') {
+                        v.push(KnownFinding {
+                            prop: p.to_string(),
+                            key: key.clone(),
+                            text: text.join(" "),
+                        });
+                    }
                 }
             }
         }
@@ -167,6 +170,9 @@ pub fn finish(rep: Report) -> i32 {
             continue;
         }
         nviol += 1;
+        if std::env::var("MCX_KF_CANDIDATES").is_ok() {
+            let _ = writeln!(out, "KF-CANDIDATE finding: property={} key={} {}", prop, key, v.what.chars().take(160).collect::<String>().replace('\n', " "));
+        }
         match write_replay(v) {
             Ok(path) => {
                 let _ = writeln!(out, "VIOLATION property={} replay={}", prop, path);
